@@ -5,6 +5,12 @@ props = [json.loads(l) for l in open('/verif/properties.jsonl')]
 
 # id -> (level text, level note, technique)
 CHECKS = {
+ "C14": ("Complete enumeration of the 22 standard gates over every injective qubit placement into up to 4 (quick) / 5 (thorough) qubits at 7 special parameters, plus sampled real parameters in four spellings, compared entrywise with matrices typed from the Quil specification and lifted by an independent bit-manipulation lifter.",
+         "The reference matrices and the lifting convention are the harness's transcription of Quil spec section 4.3; continuous parameters are sampled.",
+         "property-based testing: exhaustive placement enumeration + proptest-sampled parameters against a reference-model oracle"),
+ "C15": ("Random modifier stacks (depth <= 4) over standard gates built three ways, and random gate-only programs, compared with a recursive reference semantics of DAGGER/CONTROLLED/FORKED and with metamorphic relations (U U^dagger = I, dagger = adjoint, program = ordered product, dagger program = adjoint).",
+         "Reference semantics: the leftmost modifier is outermost and owns the first qubit (Quil spec 4.4 and the builder methods' own convention); parameters sampled; <= 5 qubits.",
+         "property-based testing: proptest-generated modifier stacks and programs; reference-model + metamorphic oracle"),
  "C13": ("Random expression trees with random partial assignments; substitution/evaluation compared bit-for-bit (metamorphic), memory-reference listing compared with a model traversal, success/failure of evaluation compared with a model completeness predicate and the value with a reference evaluator.",
          "Value comparison against the reference evaluator only where the reference is well-conditioned (1e-9); the Ok/Err and bit-identity clauses are exact.",
          "property-based testing: proptest-generated trees and partial assignments; metamorphic + reference-model oracle"),
